@@ -368,6 +368,8 @@ def run(ctx):
     check_gp_name_width(db, rep, "D16-GP-NAME-WIDTH")
     from x86enc import check_vex_listing_assembles
     check_vex_listing_assembles(db, rep, "D17-VEX-LISTING-ASSEMBLES", ctx.scratch)
+    from x86enc import check_labels_distinct
+    check_labels_distinct(db, rep, "D18-LABELS-DISTINCT")
     from vexroles import check_vex_rxb_roles
     nvr = check_vex_rxb_roles(db, rep, "D12-VEX-RXB-ROLES")
     if nvr < 5:
